@@ -84,7 +84,9 @@ CLAIMED = {
     "C03": ("Theorems about the lazy stream model and the interpreter model: whatever follows the items a prefix consumer needs (an "
             "error, a halt, a break, divergence, more items), the first k items, first, limit(n; _) and the consumer that stops iterating "
             "after k outputs give the same result; limit is exactly the prefix then the end; label/break ignores what follows the break; "
-            "comma, pipe, try, label and // hand prefixes through construct by construct. Correspondence: ~1900 programs with a marker "
+            "comma, pipe, try, label and // hand prefixes through construct by construct; reduce and foreach ask their source for the next item only "
+            "after the update has yielded a state: an empty or failing update ends the fold whatever the rest of the source would do, foreach delivers "
+            "before the source is asked again (Proofs/FoldLazy.v). Correspondence: ~1900 programs with a marker "
             "effect after the k-th output (10 stream shapes x error/halt/endless-loop markers x every prefix consumer x all k) against the "
             "extracted model and the defining equations. Oracles: inputs consumed (harness counter, finite and endless input streams) "
             "against the definitional count for 56 input programs; endless generators consumed incrementally; time for 2N against N "
@@ -169,7 +171,7 @@ CLAIMED = {
             "manual's defining equations (limit/skip/first/last/nth/isempty/any/all/add/range/repeat/recurse/while/until/select/"
             "reduce/foreach expansions) as program pairs with equal output streams.", "7.11",
             "Coq proof + model/implementation correspondence + defining-equation oracle"),
-    "C12": ("Theorems: the stable sort of the model returns a permutation of its input of equal length; for every comparison that is a total preorder the result is sorted and stable (each equivalence class keeps its order); sort on arrays of integers of any size is the numeric sort; group_by returns the maximal runs of equal keys of the sorted keyed list and their concatenation is what sort_by returns; min_by/max_by return an element of the input whose keys are extremal (for every class of numbers on which the order is a total preorder); `indices($x)` on arrays and byte strings lists, increasing and each once, exactly the positions at which the window of the needle's length exists and equals the needle, overlapping occurrences included (Proofs/SearchLaws.v), and on text strings exactly the character positions at whose byte offset the needle stands (Proofs/SearchText.v). Correspondence + oracle: "
+    "C12": ("Theorems: the stable sort of the model returns a permutation of its input of equal length; for every comparison that is a total preorder the result is sorted and stable (each equivalence class keeps its order); sort on arrays of integers of any size is the numeric sort; group_by returns the maximal runs of equal keys of the sorted keyed list and their concatenation is what sort_by returns; min_by/max_by return an element of the input whose keys are extremal (for every class of numbers on which the order is a total preorder); `indices($x)` on arrays and byte strings lists, increasing and each once, exactly the positions at which the window of the needle's length exists and equals the needle, overlapping occurrences included (Proofs/SearchLaws.v), and on text strings exactly the character positions at whose byte offset the needle stands (Proofs/SearchText.v); sort is idempotent; unique_by (= the first of every group) keeps the first element of each run of equal keys of the sorted list (Proofs/UniqueLaws.v); startswith/endswith test for a prefix/suffix and ltrimstr/rtrimstr remove exactly it (Proofs/TrimLaws.v). Correspondence + oracle: "
             "50 documented equations (sort_by/group_by/unique_by/min_by/max_by/keys/entries/indices/flatten/transpose/paths/pick/"
             "walk/del/join/trimstr/tonumber/...) as program pairs on arrays/objects with duplicates, ties, mixed types, empties and "
             "non-string keys, plus Python references for sort/unique/indices.", "7.12",
